@@ -2,7 +2,7 @@
 
 (a) Codec: every message set of up to three messages over {bundle PDU,
     transfer segment, transfer end, padding message} x payload lengths
-    {0,1,255,256,4095} x hint lists of 0-3 hints (repeated hints included), three-way round trip with an
+    {0,1,255,256,4095} x hint lists of 0-3, 4, 5, 6, 8 and 16 hints (repeated hints included), three-way round trip with an
     independent BTP-U codec (declared lengths = actual lengths).
 (b) Sizing: bundle length x MTU grid on the real send path (D-Bus call ->
     queue -> frames on a virtual packet socket).
@@ -133,6 +133,8 @@ def run_codec(params, known):
     hint_lists = [(), ((0, b'\x00\x00\x01\x00'),), ((0, b'\x00\x00\x01\x00'), (5, b'')), ((3, b'x' * 255), (9, b'y')),
                   # the same hint more than once (equal first and last, equal neighbours)
                   ((7, b'ab'), (7, b'ab')), ((7, b'ab'), (8, b''), (7, b'ab')), ((8, b''), (7, b'ab'), (7, b'ab'))]
+    # longer lists: 4, 5, 6, 8 and 16 hints on one message (values of 0 - 2 octets)
+    hint_lists += [tuple((k + 1, bytes([65 + k]) * (k % 3)) for k in range(n)) for n in (4, 5, 6, 8, 16)]
 
     def viol(kind, detail, case):
         if kind in kinds:
@@ -201,10 +203,20 @@ def run_codec(params, known):
                 viol('decode-reencode-differs', '%s vs %s' % (again.hex()[:120], oracle_bytes.hex()[:120]), case)
                 continue
             for (msg, want) in zip(msgs, combo):
+                if not isinstance(msg, M.MessageHead):
+                    viol('message-not-decoded-as-a-message', '%s for message type %d with %d hints' % (type(msg).__name__, want[0], len(want[2])), case)
+                    continue
                 declared = msg.getfieldval('length')
                 hints_len = sum(2 + len(h[1]) for h in want[2])
                 if declared != hints_len + len(want[1]):
                     viol('declared-length-differs-from-actual', '%d vs %d' % (declared, hints_len + len(want[1])), case)
+                # the fields the implementation read, one by one
+                got_hints = [(h.getfieldval('hint_type'), bytes(h.payload)) for h in msg.getfieldval('hints')]
+                if msg.getfieldval('msg_type') != want[0] or got_hints != [(h[0], bytes(h[1])) for h in want[2]]:
+                    viol('decoded-header-fields-differ', 'type %r hints %r instead of type %r hints %r'
+                         % (msg.getfieldval('msg_type'), got_hints, want[0], list(want[2])), case)
+                elif bytes(msg.payload) != bytes(want[1]):
+                    viol('decoded-body-differs', '%d octets instead of %d' % (len(bytes(msg.payload)), len(want[1])), case)
             keys.add(repr(case['messages']) + str(pad))
             if len(samples) < 1:
                 samples.append(case)
